@@ -22,25 +22,24 @@ theorem tRound_second_bounds (t : Int) :
 /-! ### one lemma per translated check: what `= .ok` means -/
 
 theorem checkSubject_ok {now c} : CheckSubject now c = .ok () ↔ c.sub ≠ "" := by
-  unfold CheckSubject Claims.GetSubject Go.ok; go_leaf
+  go_char CheckSubject Claims.GetSubject Go.ok
 
 theorem checkIssuer_ok {now c i} : CheckIssuer now c i = .ok () ↔ c.iss = i := by
-  unfold CheckIssuer Claims.GetIssuer Go.ok; go_leaf
+  go_char CheckIssuer Claims.GetIssuer Go.ok
 
 theorem checkAudience_ok {now c cid} : CheckAudience now c cid = .ok () ↔ cid ∈ c.aud := by
-  unfold CheckAudience Claims.GetAudience Go.ok Go.contains; go_leaf
+  go_char CheckAudience Claims.GetAudience Go.ok Go.contains
 
 theorem checkAuthorizedParty_ok {now c cid} :
     CheckAuthorizedParty now c cid = .ok () ↔ ((c.azp = "" ∨ c.azp = cid) ∧ (c.aud.length ≤ 1 ∨ c.azp ≠ "")) := by
-  unfold CheckAuthorizedParty Claims.GetAudience Claims.GetAuthorizedParty Go.ok Go.len HasLen.len instHasLenList
-  go_leaf
+  go_char CheckAuthorizedParty Claims.GetAudience Claims.GetAuthorizedParty Go.ok Go.len HasLen.len instHasLenList
 
 theorem checkNonce_ok {now c n} : CheckNonce now c n = .ok () ↔ c.nonce = n := by
-  unfold CheckNonce Claims.GetNonce Go.ok; go_leaf
+  go_char CheckNonce Claims.GetNonce Go.ok
 
 
 theorem checkExpiration_ok {now c off} : CheckExpiration now c off = .ok () ↔ now + off < ns c.exp := by
-  unfold CheckExpiration Claims.GetExpiration Go.ok tBefore tAdd; go_leaf
+  go_char CheckExpiration Claims.GetExpiration Go.ok tBefore tAdd
 
 theorem checkACR_ok {now c acr} :
     CheckAuthorizationContextClassReference now c acr = .ok () ↔ (∀ f, acr = some f → f c.acr = .ok ()) := by
